@@ -14,8 +14,8 @@ CLAIMED = {
         technique="Coq proof (iff decision theorem) + source-to-Coq translator with generated equality lemma + exhaustive small-domain correspondence"),
     "C13": dict(
         text="Coq theorems for all tableau sizes: each of the 8 gate kernels is the Clifford conjugation (sign included) of the Pauli string a row denotes; "
-             "conjugation tables proved against Gaussian-integer matrices; the kernels are regenerated from stabilizer_states.py on every run and proved equal to the model; "
-             "exact model/implementation correspondence for gates, tensor, add_qubit, Gaussian elimination, ==, contains.",
+             "conjugation tables proved against Gaussian-integer matrices; conjugation is an injective homomorphism of the n-qubit Pauli group preserving commutation, hence a gate maps the generated group onto exactly the conjugated group and keeps the generators commuting and independent; the row product implements the Pauli product with the phase rule as coded; Gaussian elimination preserves the generated group (signs included) and commutation; == true implies same group (converse and `contains` need RREF uniqueness: stated, not proved, named _partial). "
+             "The kernels are regenerated from stabilizer_states.py on every run and proved equal to the model; exact model/implementation correspondence for gates, tensor, add_qubit, Gaussian elimination, ==, contains.",
         design="4/C13",
         note="Trusted: Coq kernel+vm_compute; ast translator for the gate kernels; numpy semantics of masks/views; group<->state link checked numerically (oracle), not proved.",
         technique="Coq proof (per-row conjugation theorems, all n) + source-to-Coq translator with generated equality lemmas + vm_compute correspondence"),
@@ -50,6 +50,16 @@ CLAIMED = {
         design="9.5/C10 (notes/C10.md)",
         note="Trusted: Coq kernel; netqasm message (de)serialisers (their prefix-rejection is checked per run, not proved); handlers are synchronous in model and harness; real TCP buffering replaced by chosen chunkings / a local socketpair.",
         technique="Coq proof (induction over chunk lists / message lists, prefix-free codec lemma, refutation witnesses) + vm_compute correspondence"),
+    "C14": dict(
+        text="PARTIAL proof. Coq theorems (in the measured-qubit-first frame the code itself eliminates in): elimination keeps the group and leaves at most one row with X/Y on the measured qubit; random branch: outcome = coin for both coins, the in-place result generates <(-1)^b Z, rows 1..> and rows 1.. generate exactly the elements of G commuting with Z; determined branch and repeat: partial statements. Not proved: transport along the column permutation back to the original frame, the destructive branch at group level, and everything needing RREF uniqueness (deterministic outcome value, equality of the repeated outcome). Those are covered, as a test, by exact tableau+outcome correspondence (exhaustive on 1..2 qubits quick / 1..3 thorough x positions x modes x coins, random up to 8 qubits) and a numpy Born-rule/projection/partial-trace oracle.",
+        design="9.5/C14 (notes/C14.md)",
+        note="Trusted: Coq kernel; numpy primitives of StabilizerState.measure (modelled by hand, tied by exact correspondence); Born rule <-> stabilizer group link checked numerically.",
+        technique="Coq proof (group-level measurement lemmas over the elimination invariant) + exhaustive small-domain vm_compute correspondence + numpy oracle"),
+    "C15": dict(
+        text="PARTIAL (stabilizer backend only; qutip and projectq are not installed, their engine modules cannot be imported, so no model of them could be tied to code). Coq record EngineLaws (add_fresh returns the old size and appends |0>; absorb = tensor product with the absorbed positions offset; absorb_parts after export = absorb; refusal exactly when the size limit would be exceeded and before any mutation) proved for the model of stabilizerEngine; tie: the real stabilizerEngine driven call-for-call (random sequences <= 20 calls, 1..6 qubits, absorb into empty/non-empty, export/import) with exact get_register_RI comparison in Coq plus the numpy state oracle.",
+        design="9.5/C15 (notes/C15.md)",
+        note="Trusted: Coq kernel; the contract is stated once, the qutip/projectq instances are NOT claimed.",
+        technique="Coq proof (engine contract record instantiated for the stabilizer engine) + vm_compute correspondence"),
     "C16": dict(
         text="Coq theorems over Model C (configuration store with the OS port probe as an arbitrary oracle) for EVERY edit sequence: no two endpoints share (host, port) in memory or on disk (inductive invariant preserved by all 8 operations incl. refused ones), a removed node is gone from node list, topology keys and neighbour lists and stays gone, write/read round trip, node id = index in the verified sorted name list with both lookups mutual inverses and reader-independent. Tie: after every edit of random edit sequences the real NetworksConfigConstructor / SocketsConfig / SimulaQronNetworkInfo results equal the model's (vm_compute), independent Python oracle states the property directly.",
         design="9.5/C16 (notes/C16.md)",
